@@ -36,6 +36,10 @@ def kytea_fns(w):
 
 def run(chk):
     w = C.world_for(chk)
+    # rejecting an input means returning an error value: building it must not be able to fail (shared with C05)
+    from . import c05_total as _c05t
+    chk.rule("R05.4", "error constructors are straight-line conversions (shared with C05)")
+    _c05t.error_ctors(chk, w)
     for rid, txt in (("R17.1", "every read error propagates; only read_exact-based reads (+2 tolerated, followed by a helper read)"), ("R17.2", "type letter table"),
                      ("R17.3", "kind consistency and slice lengths"), ("R17.4", "dictionary offsets, roles, membership, bucket"), ("R17.5", "bias = biases[0]")):
         chk.rule(rid, txt)
